@@ -35,6 +35,21 @@ WUF, WUS = "src/future/wait_until.rs", "src/stream/wait_until.rs"
 SETW_OLD = "            Some(prev) => prev.clone_from(parent_waker),"
 SETW_NEW = "            Some(_prev) => {}"
 
+WAKE_OLD = """        let mut readiness = self.readiness.lock().unwrap();
+        if !readiness.set_ready(self.id) {
+            readiness
+                .parent_waker()
+                .expect("`parent_waker` not available from `Readiness`. Did you forget to call `Readiness::set_waker`?")
+                .wake_by_ref()
+        }
+"""
+WAKE_NEW = """        let parent = self.readiness.lock().unwrap().parent_waker().cloned();
+        if let Some(parent) = parent {
+            parent.wake_by_ref();
+        }
+        self.readiness.lock().unwrap().set_ready(self.id);
+"""
+
 # (name, property, [(file, old, new)], note)
 M = [
  ("c01_set_waker_keeps_first", "C01", [(RA, SETW_OLD, SETW_NEW), (RV, SETW_OLD, SETW_NEW)],
@@ -53,6 +68,8 @@ M = [
   "array join checks any_ready and stores the new parent waker in two critical sections: a foreign-thread wake in between is forwarded to the previous task waker (needs a lock-boundary wake + a changed waker)"),
  ("c01_vec_wake_forward_always_but_no_setbit_when_set", "C01", [(WV, "if !readiness.set_ready(self.id) {", "if readiness.set_ready(self.id) {")],
   "InlineWakerVec::wake forwards only when the bit was already set (Vec / group containers)"),
+ ("c01_mt_wake_parent_before_setbit", "C01", [(WA, WAKE_OLD, WAKE_NEW), (WV, WAKE_OLD, WAKE_NEW)],
+  "Inline wakers wake the parent task first and set the child's bit afterwards, in a second critical section: only a real interleaving of a foreign waker thread with the poller exposes it (engine B; engine A's atomic wakes are blind to it by construction)"),
  ("c02_join_completed_child_not_dropped", "C02", [(JA, "                    unsafe { ManuallyDrop::drop(fut.get_unchecked_mut()) };\n", "")],
   "array join never drops a child that completed (leak)"),
  ("c02_try_join_err_marks_ready", "C02", [(TA, "                            this.state[i].set_none();\n", "                            this.state[i].set_ready();\n")],
